@@ -309,7 +309,65 @@ def protocols_case_st(draw, tier):
     return {"rec": rec, "platform": platform, "items": items, "protocol_nr": draw(st.booleans())}
 
 
+def judge_both(case) -> Verdict:
+    """Metamorphic: a request for source AND destination ports yields the source-side lines followed by the
+    destination-side lines of the two single-sided requests (each side is judged by the 'ports' sub-check)."""
+    from cisco_acl import range_ports
+
+    rec, platform = case["rec"], case["platform"]
+    G.validate_rec(rec, platform)
+    if rec["proto"] not in (6, 17) or any(rec.get(k) and rec[k]["op"] in ("neq", "lt", "gt") for k in ("sp", "dp")):
+        raise Invalid()
+    for items in (case["src"], case["dst"]):
+        if not items or len(items) > 6:
+            raise Invalid()
+        for it in items:
+            vals = [it] if isinstance(it, int) else list(it)
+            if any(not isinstance(x, int) or not 1 <= x <= 65535 for x in vals) or (len(vals) == 2 and vals[0] > vals[1]) or len(vals) > 2:
+                raise Invalid()
+    line = G.render_ace(dict(rec, ws=None), platform, noise=False)
+    kw = {"line": line, "platform": platform, "port_nr": bool(case["port_nr"]), "port_count": case["port_count"],
+          "port_range": bool(case["port_range"])}
+    if not 1 <= kw["port_count"] <= 6:
+        raise Invalid()
+    v = Verdict()
+    v.label("both-sides")
+
+    def call(**extra):
+        try:
+            return range_ports(**kw, **extra)
+        except ValueError:
+            return None
+
+    src, dst = request_text(case["src"]), request_text(case["dst"])
+    both, only_s, only_d = call(srcports=src, dstports=dst), call(srcports=src), call(dstports=dst)
+    v.nt(both is not None and len(both) >= 2)
+    if only_s is None or only_d is None:
+        if both is not None:
+            v.fail("both:returns-lines-although-one-side-is-refused", {"call": kw, "src": src, "dst": dst, "lines": both[:6]})
+        return v
+    if both is None:
+        v.fail("both:refused-although-each-side-works", {"call": kw, "src": src, "dst": dst})
+    elif both != only_s + only_d:
+        v.fail("both:differs-from-source-lines-plus-destination-lines", {"call": kw, "src": src, "dst": dst, "both": both[:8],
+                                                                        "src_only": only_s[:6], "dst_only": only_d[:6]})
+    return v
+
+
+@st.composite
+def both_case_st(draw, tier):
+    base = draw(ports_case_st(tier))
+    rec = base["rec"]
+    for k in ("sp", "dp"):
+        if rec.get(k) and rec[k]["op"] in ("neq", "lt", "gt"):
+            rec[k] = None
+    other = draw(ports_case_st(tier))
+    return {"rec": rec, "platform": base["platform"], "src": base["items"][:6], "dst": other["items"][:6],
+            "port_count": base["port_count"], "port_range": base["port_range"], "port_nr": base["port_nr"]}
+
+
 SUBS = [
+    Sub("both-sides", judge_both, strategy=both_case_st, quick=600, thorough=20000),
     Sub("ports", judge_ports, strategy=ports_case_st, quick=3000, thorough=100000, shards_thorough=48),
     Sub("protocols", judge_protocols, strategy=protocols_case_st, quick=800, thorough=20000),
 ]
